@@ -13,3 +13,4 @@ pub mod c07live;
 pub mod c17sctp;
 pub mod c19;
 pub mod dtls_attacker;
+pub mod c14pc;
